@@ -259,6 +259,7 @@ func (e *env) storeBatch(t *testing.T) {
 // ---- attributed state ----
 
 var denomNameRe = regexp.MustCompile(`factory/paloma1[0-9a-z]{38}/`)
+var fullDenomRe = regexp.MustCompile(`factory/paloma1[0-9a-z]{38}/[a-zA-Z0-9./:_-]+`)
 
 // scan digests, per actor, every KV pair of every store whose key or value mentions the actor
 // (raw 20 bytes, account bech32 or validator-operator bech32), and the governance-held settings
@@ -312,6 +313,16 @@ func (e *env) eachPair(ctx sdk.Context, fn func(store string, key, val []byte)) 
 			key, v := it.Key(), it.Value()
 			if n == "bank" {
 				key, v = denomNameRe.ReplaceAll(key, []byte("factory/_/")), denomNameRe.ReplaceAll(v, []byte("factory/_/"))
+			}
+			if n == skywaytypes.StoreKey && e.tf != nil && !e.two && !e.three {
+				// an ERC20 binding of a tokenfactory denom is held by whoever ADMINISTERS the denom now
+				// (the denom's name only carries its creator): one more part, naming the admin
+				if d := fullDenomRe.Find(v); d != nil {
+					if md, err := e.tfK.GetAuthorityMetadata(ctx, string(d)); err == nil && md.Admin != "" {
+						h := sha256.Sum256(v)
+						fn(n, append(append([]byte{}, key...), []byte("|admin-of-bound-denom|"+md.Admin)...), []byte(hex.EncodeToString(h[:8])))
+					}
+				}
 			}
 			if strings.Contains(n, "consensus") {
 				if parts, ok := e.queueVirtualPairs(key, v); ok {
